@@ -16,7 +16,8 @@
    correspondence check (bin/check C18). *)
 From Coq Require Import List ZArith Lia Bool Arith NArith.
 From Coq.Strings Require Import Byte.
-From Muduo Require Import Base_Bytes Gen_Consts Gen_C18 C18_Model C18_StreamProofs C18_CodecProofs C18_HttpProofs C18_HttpRef C18_Proofs C18_GenLink.
+From Muduo Require Import C19_Model C19_Wire C19_WireProofs.
+From Muduo Require Import Base_Bytes Gen_Consts Gen_C18 C10_Model C10_Proofs C18_Model C18_StreamProofs C18_CodecProofs C18_HttpProofs C18_HttpRef C18_Proofs C18_EncModel C18_EncProofs C18_HttpSrvModel C18_HttpSrvProofs C18_GenLink C18_RpcInstance.
 Import ListNotations.
 Local Open Scope Z_scope.
 
@@ -192,6 +193,262 @@ Theorem C18_generated_length_test :
 Proof. exact gen_length_test. Qed.
 Print Assumptions C18_generated_length_test.
 
+(* ======================= the encoder, through the C10 Buffer model ========================== *)
+(* fillEmptyBuffer (append tag; serializeToBuffer = ensureWritableBytes + the serializer writing at
+   beginWrite() + hasWritten; checksum over peek()..; appendInt32; prepend of the length), run on
+   the Buffer model of C10: on a fresh Buffer of any initial size, and on every reachable empty
+   Buffer with at least 4 prependable bytes, the readable bytes are exactly the wire format;
+   a non-empty Buffer trips the assertion. *)
+Theorem C18_encode_matches_wire_format :
+  forall (msg : Type) (ser : msg -> list byte) (tag : list byte) (m : msg),
+    (forall n, exists b', fillEmptyBuffer msg ser tag m (new_buf n) = Ok b' /\
+                          readable b' = encode tag (ser m)) /\
+    (forall st s, reach st s -> fst s = [] -> (4 <= prependableBytes (fst st))%nat ->
+       exists b', fillEmptyBuffer msg ser tag m (fst st) = Ok b' /\
+                  readable b' = encode tag (ser m)) /\
+    (forall st s, reach st s -> fst s <> [] -> fillEmptyBuffer msg ser tag m (fst st) = Rejected).
+Proof. exact encode_matches_wire_format. Qed.
+Print Assumptions C18_encode_matches_wire_format.
+
+(* The dependency on C10 made explicit: kHeaderLen <= kCheapPrepend (two regenerated constants);
+   on any Buffer whose history contains no prepend (C10_cheap_prepend_unused) the final prepend is
+   accepted; and it IS needed: a reachable empty Buffer whose prepend area was used up makes
+   fillEmptyBuffer fail in Buffer::prepend's assertion. *)
+Theorem C18_encode_needs_cheap_prepend :
+  (hdr_len <= kCheapPrepend)%nat /\
+  (forall (msg : Type) (ser : msg -> list byte) (tag : list byte) (m : msg) n k ops st outs,
+     C10_Model.run (new_buf n, new_buf k) ops = Ok (st, outs) ->
+     forallb (fun o => negb (prepends o)) ops = true ->
+     readable (fst st) = [] ->
+     exists b', fillEmptyBuffer msg ser tag m (fst st) = Ok b' /\ readable b' = encode tag (ser m)) /\
+  (exists st outs,
+     C10_Model.run (new_buf 16, new_buf 0) [PrependInt W64 0%Z; Unwrite 8] = Ok (st, outs) /\
+     readable (fst st) = [] /\
+     fillEmptyBuffer (list byte) (fun x => x) [] [] (fst st) = Rejected).
+Proof. exact encode_needs_cheap_prepend. Qed.
+Print Assumptions C18_encode_needs_cheap_prepend.
+
+(* Round trip through the real buffer operations on both sides: every message encoded by
+   fillEmptyBuffer into a fresh Buffer; the Buffers' readable bytes concatenated and cut into
+   deliveries in any way; each delivery appended to the connection's input Buffer and decoded by
+   onMessage with every access through Buffer's members (readableBytes, peekInt32, peek()+offset,
+   retrieve): exactly those messages, input Buffer empty at the end, no error, no shutdown. *)
+Theorem C18_roundtrip_through_buffers :
+  forall (msg : Type) (parse : list byte -> option msg) (ser : msg -> list byte) (tag : list byte),
+    forall (ms : list msg) (bufs : list buf) (chunks : list (list byte)) (n0 : nat),
+      Forall (fun m => parse (ser m) = Some m /\ fits tag (ser m)) ms ->
+      Forall2 (fun m b => exists n, fillEmptyBuffer msg ser tag m (new_buf n) = Ok b) ms bufs ->
+      concat chunks = flat_map readable bufs ->
+      exists evss c', deliver_all msg parse tag (conn0 n0) chunks = Ok (evss, c') /\
+        concat evss = map CMsg ms /\ readable (c_in c') = [] /\
+        c_connected c' = true /\ c_shutdowns c' = 0%nat.
+Proof. exact roundtrip_through_buffers. Qed.
+Print Assumptions C18_roundtrip_through_buffers.
+
+(* The decoder over the Buffer model never faults (no read outside the Buffer's readable region,
+   no failed assertion, loop terminates), leaves in the input Buffer exactly the unconsumed bytes
+   of the list-level decoder, and, as long as no error occurred, reports exactly its events. *)
+Theorem C18_decoder_over_buffer :
+  forall (msg : Type) (parse : list byte -> option msg) (tag : list byte) (chunks : list (list byte)) (n0 : nat),
+    let r := codec_feed_all msg parse tag codec_init chunks in
+    exists evss c', deliver_all msg parse tag (conn0 n0) chunks = Ok (evss, c') /\
+      length evss = length chunks /\
+      readable (c_in c') = d_buf (snd r) /\
+      (d_abandoned (snd r) = false ->
+         concat evss = fst r /\ c_connected c' = true /\ c_shutdowns c' = 0%nat).
+Proof. exact decoder_over_buffer. Qed.
+Print Assumptions C18_decoder_over_buffer.
+
+(* "the same first error, after which the stream is abandoned" as a modelled step: the codec
+   keeps no flag; defaultErrorCallback shuts the connection down (once); TcpConnection goes on
+   delivering what still arrives; every such delivery reports the SAME error again, delivers no
+   message and consumes nothing.  [r1] is the abandoned-flag decoder of the theorems above. *)
+Theorem C18_error_abandons_stream :
+  forall (msg : Type) (parse : list byte -> option msg) (tag : list byte)
+         (chunks1 chunks2 : list (list byte)) (n0 : nat),
+    let r1 := codec_feed_all msg parse tag codec_init chunks1 in
+    d_abandoned (snd r1) = true ->
+    exists e pre evss1 c',
+      fst r1 = pre ++ [CErr e] /\
+      deliver_all msg parse tag (conn0 n0) (chunks1 ++ chunks2) =
+        Ok (evss1 ++ repeat [CErr e] (length chunks2), c') /\
+      length evss1 = length chunks1 /\
+      c_connected c' = false /\ c_shutdowns c' = 1%nat /\
+      readable (c_in c') = d_buf (snd r1) ++ concat chunks2.
+Proof. exact error_abandons_stream. Qed.
+Print Assumptions C18_error_abandons_stream.
+
+(* The round trip needs the parser hypothesis only for the messages actually sent. *)
+Theorem C18_roundtrip_on :
+  forall (msg : Type) (parse : list byte -> option msg) (ser : msg -> list byte) (tag : list byte)
+         (ms : list msg) (chunks : list (list byte)),
+    Forall (fun m => parse (ser m) = Some m /\ fits tag (ser m)) ms ->
+    concat chunks = flat_map (encode_msg msg ser tag) ms ->
+    codec_feed_all msg parse tag codec_init chunks = (map CMsg ms, mkD tt [] false false).
+Proof. exact roundtrip_on. Qed.
+Print Assumptions C18_roundtrip_on.
+
+(* ======================= RpcCodec: tag "RPC0", payload = RpcMessage ========================== *)
+(* The payload format is C19_Wire.wire_parse / wire_ser (rpc.proto as protobuf reads / writes it;
+   C19_wire_roundtrip).  Every well-formed RpcMessage within the size limit, encoded through the
+   Buffer model, decodes to an equal RpcMessage in any segmentation, over the list decoder and
+   over the connection's input Buffer. *)
+Theorem C18_rpc_codec_instance :
+  forall (ms : list rpcmsg) (bufs : list buf) (chunks : list (list byte)) (n0 : nat),
+    Forall rpc_sendable ms ->
+    Forall2 (fun m b => exists n, fillEmptyBuffer rpcmsg wire_ser rpctag m (new_buf n) = Ok b) ms bufs ->
+    concat chunks = flat_map readable bufs ->
+    flat_map readable bufs = flat_map (encode_msg rpcmsg wire_ser rpctag) ms /\
+    codec_feed_all rpcmsg wire_parse rpctag codec_init chunks = (map CMsg ms, mkD tt [] false false) /\
+    exists evss c', deliver_all rpcmsg wire_parse rpctag (conn0 n0) chunks = Ok (evss, c') /\
+      concat evss = map CMsg ms /\ readable (c_in c') = [] /\
+      c_connected c' = true /\ c_shutdowns c' = 0%nat.
+Proof. exact rpc_codec_instance. Qed.
+Print Assumptions C18_rpc_codec_instance.
+
+Theorem C18_rpc_rejects_unparsable :
+  forall ps ms p rest chunks,
+    valid_frames rpcmsg wire_parse rpctag ps ms ->
+    concat chunks = flat_map (encode rpctag) ps ++ (encode rpctag p ++ rest) ->
+    fits rpctag p -> wire_parse p = None ->
+    codec_feed_all rpcmsg wire_parse rpctag codec_init chunks =
+      (map CMsg ms ++ [CErr kParseError], mkD tt (encode rpctag p ++ rest) true false).
+Proof. exact rpc_rejects_unparsable. Qed.
+Print Assumptions C18_rpc_rejects_unparsable.
+
+Theorem C18_rpctag_generated : map Z_of_byte rpctag = Gen_C18.RpcCodec_rpctag.
+Proof. exact rpctag_generated. Qed.
+Print Assumptions C18_rpctag_generated.
+
+(* ======================= HTTP: headers, server loop, responses ================================ *)
+(* addHeader: the field name is the bytes before the colon (not trimmed); the value is what follows,
+   with C-locale white space removed at both ends and nothing else; assigning a field again
+   replaces its value (duplicate header lines: the last one wins), other fields are untouched. *)
+Theorem C18_http_header_semantics : forall r line colon,
+  let field := firstn colon line in
+  let raw := skipn (colon + 1) line in
+  let value := trim_right (drop_space raw) in
+  get_header (add_header r line colon) field = value /\
+  (forall k, k <> field -> get_header (add_header r line colon) k = get_header r k) /\
+  (exists p s, raw = p ++ value ++ s /\ forallb isspace p = true /\ forallb isspace s = true) /\
+  match value with x :: _ => isspace x = false | [] => True end /\
+  match rev value with x :: _ => isspace x = false | [] => True end.
+Proof. exact add_header_spec. Qed.
+Print Assumptions C18_http_header_semantics.
+
+(* HttpServer::onMessage calls parseRequest once per delivery.  The requests handed to the
+   callback are therefore a PREFIX of the requests contained in the delivered bytes (= those of
+   the segmentation-invariant decoder http_feed_all, whose gotAll => deliver, reset(), again loop
+   is what C18_seg_invariant is about); the missing ones are exactly those the ideal loop [drain]
+   still finds in the server's input buffer, and from there it ends in the ideal decoder's state
+   (parser state after reset(), unconsumed bytes, abandoned).  Never out of fuel. *)
+Theorem C18_http_server_requests_prefix :
+  forall (callback : request -> bool -> response) (chunks : list (list byte)),
+    let '(ess, c) := srv_deliver_all callback sconn0 chunks in
+    let '(ei, di) := http_feed_all http_init chunks in
+    hreqs ei = requests_of (concat ess) ++ hreqs (fst (drain c)) /\
+    snd (drain c) = di /\ ~ In SOof (concat ess).
+Proof. exact server_requests_prefix. Qed.
+Print Assumptions C18_http_server_requests_prefix.
+
+(* ... and the server as a whole is not segmentation invariant (the property text claims it for
+   the request PARSER only): two pipelined requests in one delivery => one is answered now. *)
+Theorem C18_http_server_pipelining_refuted :
+  exists (c1 c2 : list (list byte)), concat c1 = concat c2 /\
+    length (requests_of (concat (fst (srv_deliver_all ex_callback sconn0 c1)))) = 1%nat /\
+    length (requests_of (concat (fst (srv_deliver_all ex_callback sconn0 c2)))) = 2%nat /\
+    length (hreqs (fst (http_feed_all http_init c1))) = 2%nat.
+Proof. exact server_pipelining_refuted. Qed.
+Print Assumptions C18_http_server_pipelining_refuted.
+
+(* HttpResponse::appendToBuffer: status line, then "Connection: close" or Content-Length +
+   "Connection: Keep-Alive", then the headers in map order, the empty line, the body.  The emitted
+   bytes parse back under the reference grammar (status-line / header-field / body with
+   Content-Length check) to the same code, reason, header list and body. *)
+Theorem C18_http_response_parses_back : forall r, wf_response r ->
+  ref_parse_response (response_bytes r) =
+    Some (mkPR (rs_code r) (rs_msg r) (implicit_headers r ++ rs_headers r) (rs_body r)).
+Proof. exact response_parses_back. Qed.
+Print Assumptions C18_http_response_parses_back.
+
+(* ======================= generated comparisons of the sources ================================= *)
+Local Notation Zn := Z.of_nat.
+Theorem C18_gen_onMessage : forall (tag b : list byte) (len P e : Z),
+  onMessage_while0 kHeaderLen (kMinMessageLen tag) (Zn (length b))
+    = (Zn (length b) >=? kMinMessageLen tag + kHeaderLen) /\
+  (onMessage_cmp0 kMaxMessageLen len || onMessage_cmp1 (kMinMessageLen tag) len)%bool = length_bad tag len /\
+  onMessage_if0 kMaxMessageLen (kMinMessageLen tag) len = length_bad tag len /\
+  onMessage_cmp2 kHeaderLen len (Zn (length b)) = (Zn (length b) >=? kHeaderLen + len) /\
+  onMessage_if1 kHeaderLen len (Zn (length b)) = (Zn (length b) >=? kHeaderLen + len) /\
+  onMessage_call1_parse_arg0 kHeaderLen P - P = kHeaderLen /\
+  onMessage_call1_parse_arg1 len = len /\
+  onMessage_call0_retrieve kHeaderLen len = kHeaderLen + len /\
+  onMessage_call2_retrieve kHeaderLen len = kHeaderLen + len /\
+  onMessage_let_len len = len /\
+  onMessage_cmp3 e Gen_Consts.ProtobufCodecLite_kNoError = (e =? 0).
+Proof. exact gen_onMessage. Qed.
+Print Assumptions C18_gen_onMessage.
+
+Theorem C18_gen_parse : forall (tag : list byte) (P off len a b m : Z),
+  let buf := P + off in
+  parse_call0_validateChecksum_arg0 buf = buf /\ parse_call0_validateChecksum_arg1 len = len /\
+  parse_cmp0 m = (m =? 0) /\ parse_if1 m = (m =? 0) /\
+  parse_call1_memcmp_arg0 buf = buf /\
+  parse_let_data buf (Zn (length tag)) - P = off + Zn (length tag) /\
+  parse_let_dataLen kChecksumLen len (Zn (length tag)) = len - kChecksumLen - Zn (length tag) /\
+  validateChecksum_call0_asInt32 buf kChecksumLen len - P = off + len - kChecksumLen /\
+  validateChecksum_call1_checksum_arg0 buf = buf /\
+  validateChecksum_call1_checksum_arg1 kChecksumLen len = len - kChecksumLen /\
+  validateChecksum_cmp0 a b = (a =? b).
+Proof. exact gen_parse. Qed.
+Print Assumptions C18_gen_parse.
+
+Theorem C18_gen_encoder : forall (tag : list byte) (b : buf) (n r : nat) (P : Z),
+  fillEmptyBuffer_assert0 (Zn (readableBytes b)) = (readableBytes b =? 0)%nat /\
+  fillEmptyBuffer_assert1 (Zn n) kChecksumLen (Zn r) (Zn (length tag)) = (r =? length tag + n + cks_len)%nat /\
+  fillEmptyBuffer_call0_checksum_arg1 (Zn r) = Zn r /\
+  fillEmptyBuffer_call2_prepend_arg1 = Zn hdr_len /\
+  serializeToBuffer_call0_ensureWritableBytes (Zn n) kChecksumLen = Zn (n + cks_len) /\
+  serializeToBuffer_call1_hasWritten (Zn n) = Zn n /\
+  serializeToBuffer_cmp0 (Zn n) (P + Zn n) P = false.
+Proof. exact gen_encoder. Qed.
+Print Assumptions C18_gen_encoder.
+
+Theorem C18_gen_processRequestLine : forall (line target ver : list byte) (P : Z),
+  processRequestLine_cmp0 (P + Zn (length line)) (P + Zn (idx SP line))
+    = (match find_byte SP line with Some _ => true | None => false end) /\
+  processRequestLine_cmp1 (P + Zn (length line)) (P + Zn (idx SP line))
+    = (match find_byte SP line with Some _ => true | None => false end) /\
+  processRequestLine_cmp2 (P + Zn (idx QMARK target)) (P + Zn (length target))
+    = (match find_byte QMARK target with Some _ => true | None => false end) /\
+  processRequestLine_cmp3 (P + Zn (length ver)) P = (length ver =? 8)%nat /\
+  ((1 <= length ver)%nat ->
+     processRequestLine_cmp4 (deref_of P ver) (P + Zn (length ver)) = Byte.eqb (nth (length ver - 1) ver x00) x31 /\
+     processRequestLine_cmp5 (deref_of P ver) (P + Zn (length ver)) = Byte.eqb (nth (length ver - 1) ver x00) x30).
+Proof. exact gen_processRequestLine. Qed.
+Print Assumptions C18_gen_processRequestLine.
+
+Theorem C18_gen_parseRequest : forall (s : hstate) (line : list byte) (i : nat) (P : Z),
+  parseRequest_cmp0 Gen_Consts.HttpContext_kExpectRequestLine (state_code s)
+    = (match s with kExpectRequestLine => true | _ => false end) /\
+  parseRequest_cmp1 Gen_Consts.HttpContext_kExpectHeaders (state_code s)
+    = (match s with kExpectHeaders => true | _ => false end) /\
+  parseRequest_cmp3 Gen_Consts.HttpContext_kExpectBody (state_code s)
+    = (match s with kExpectBody => true | _ => false end) /\
+  parseRequest_cmp2 (P + Zn (idx COLON line)) (P + Zn (length line))
+    = (match find_byte COLON line with Some _ => true | None => false end) /\
+  parseRequest_call0_retrieveUntil (P + Zn i) - P = Zn (i + 2) /\
+  parseRequest_call1_retrieveUntil (P + Zn i) - P = Zn (i + 2).
+Proof. exact gen_parseRequest. Qed.
+Print Assumptions C18_gen_parseRequest.
+
+Theorem C18_gen_http_server : forall (ok g c : bool) (v : version),
+  HttpServer_onMessage_if0 ok = negb ok /\ HttpServer_onMessage_if1 g = g /\
+  HttpServer_onRequest_cmp0 Gen_Consts.HttpRequest_kHttp10 (version_code v) = is_http10 v /\
+  appendToBuffer_if0 c = c.
+Proof. exact gen_http_server. Qed.
+Print Assumptions C18_gen_http_server.
+
 (* ---- non-vacuity: the hypotheses are inhabited, the objects are non-trivial ------------ *)
 Definition tagXYZ : list byte := [x58; x59; x5a].
 Definition hello : list byte := [x68; x65; x6c; x6c; x6f].
@@ -239,4 +496,38 @@ Proof. vm_compute. reflexivity. Qed.
 Example C18_ex_http_bad :
   fst (http_feed_all http_init
     [[x47; x45; x54; x20; x2f; x20; x48; x54; x54; x50; x2f; x31; x2e; x32; x0d; x0a]]) = [HBad].
+Proof. vm_compute. reflexivity. Qed.
+
+(* ---- non-vacuity of the additions ------------------------------------------------------------ *)
+(* fillEmptyBuffer over the Buffer model produces the 17 bytes of C18_ex_encode, leaving 4
+   prependable bytes *)
+Example C18_ex_fill :
+  exists b, fillEmptyBuffer _ raw_ser tagXYZ hello (new_buf 1024%nat) = Ok b /\
+            readable b = encode tagXYZ (raw_ser hello) /\ prependableBytes b = 4%nat.
+Proof. vm_compute. eexists. repeat split. Qed.
+
+(* a bad checksum, then two more deliveries: the error is reported three times, one shutdown *)
+Example C18_ex_error_path :
+  let f := encode tagXYZ (raw_ser hello) in
+  let bad := firstn 16 f ++ [x4b] in
+  exists c, deliver_all _ raw_parse tagXYZ (conn0 64%nat) [f ++ bad; hello; []] =
+              Ok ([[CMsg hello; CErr kCheckSumError]; [CErr kCheckSumError]; [CErr kCheckSumError]], c) /\
+            c_connected c = false /\ c_shutdowns c = 1%nat /\ readable (c_in c) = bad ++ hello.
+Proof. vm_compute. eexists. repeat split. Qed.
+
+Example C18_ex_rpc_sendable : rpc_sendable ex_rpc.
+Proof. exact ex_rpc_sendable. Qed.
+
+(* a well-formed response: 200 OK, keep-alive, one header, a body *)
+Definition ex_resp : response := mkResp 200 [x4f; x4b] false [([x58], [x31])] hello.
+Example C18_ex_response_wf : wf_response ex_resp.
+Proof.
+  constructor; cbn; try lia; try reflexivity.
+  - intros [H|[H|[]]]; discriminate H.
+  - repeat constructor; cbn; intros H; repeat (destruct H as [H|H]; [discriminate H|]); exact H.
+Qed.
+Example C18_ex_response_bytes :
+  response_bytes ex_resp =
+  s_HTTP11_SP ++ [x32; x30; x30; x20; x4f; x4b; x0d; x0a] ++ s_content_length ++ [x35; x0d; x0a] ++
+  s_conn_keep ++ [x0d; x0a; x58; x3a; x20; x31; x0d; x0a; x0d; x0a] ++ hello.
 Proof. vm_compute. reflexivity. Qed.
